@@ -145,7 +145,11 @@ def main():
     outp = a[a.index("--out") + 1] if "--out" in a else os.path.join(VERIF, ".scratch", f"mutcampaign_{seed}.jsonl")
     rnd = random.Random(seed)
     jobs = []
+    import re as _re
+    only = _re.compile(a[a.index("--only") + 1]) if "--only" in a else None
     for rel, props in TARGETS.items():
+        if only is not None and not only.search(rel):
+            continue
         src = open(os.path.join("/repo/src/rp2", rel)).read()
         sites = mutants_of(src)
         if "--kind" in a:
